@@ -278,3 +278,70 @@ def closed_before_handover(ck, S, RID, tag):
               (what, "compressed copy is made from the on-disk prefix and the original is then removed" if what == "compressed" else "buffer is flushed into the renamed file later, out of order"),
               key="rotate|%s-before-close|%s" % (what, tag))
     return len(targets)
+
+
+def stale_size(ck, S, rid):
+    """a size of the active file that was read before a rotation says nothing about the file after it: between the read of
+    QFile::size() (kept in a local, handed to a helper) and each later use of that value no rotation may run.  Looked at in
+    rotateIfNeeded() and in the check helpers it calls; a call of a helper that can reach rotate() counts as a rotation."""
+    rot_id = S.m["rotate"].id
+    by_id = {f.id: f for f in S.m.values()}
+
+    def reaches_rotate(fid, seen=None):
+        seen = seen or set()
+        if fid == rot_id:
+            return True
+        if fid in seen or fid not in by_id:
+            return False
+        seen.add(fid)
+        return any(reaches_rotate(n.get("fn"), seen) for n in by_id[fid].calls() if n.get("fn") in by_id)
+    n_uses, bad = 0, None
+    for role in ("rotateIfNeeded", "checkDailyRotation", "checkSizeRotation"):
+        fn = S.m.get(role)
+        if fn is None:
+            continue
+        g = S.g(fn)
+
+        def site(x):
+            s_ = g.site_of(x)
+            if s_ is None:
+                for a_ in fn.ancestors(x):
+                    if g.site_of(a_) is not None:
+                        return g.site_of(a_)
+            return s_
+        rot_calls = [n for n in fn.calls() if n.get("fn") in by_id and reaches_rotate(n.get("fn"))]
+        reads = [n for n in fn.calls() if is_call(n, ("QFileDevice::size", "QFile::size", "QIODevice::size")) and S.is_active_file(n.get("obj"), fn)]
+        for rd in reads:
+            holders = set()
+            for dn in fn.find(lambda x: x.get("k") == "decl"):
+                for v in dn.get("vars", []):
+                    if isinstance(v.get("init"), dict) and any(y.get("id") == rd.get("id") for y in walk(v["init"])):
+                        holders.add(v["decl"])
+            for _ in range(3):
+                for dn in fn.find(lambda x: x.get("k") == "decl"):
+                    for v in dn.get("vars", []):
+                        if v.get("decl") not in holders and isinstance(v.get("init"), dict) and skip_copies(v["init"]).get("k") == "ref" and skip_copies(v["init"]).get("decl") in holders:
+                            holders.add(v["decl"])
+            if not holders:
+                continue
+            rs = site(rd)
+            for u in fn.all_nodes():
+                if u.get("k") != "ref" or u.get("decl") not in holders:
+                    continue
+                us = site(u)
+                if us is None or rs is None:
+                    continue
+                n_uses += 1
+                for rc in rot_calls:
+                    r_ = site(rc)
+                    if r_ is None or r_ == us:
+                        continue       # the value handed to the very call that may rotate is used before that rotation
+                    if g.can_reach(rs, r_) and g.can_reach(r_, us):
+                        bad = bad or (fn, rd, u, rc)
+    if bad:
+        fn, rd, u, rc = bad
+        ck.ob(rid, sitestr(fn, u), False, "%s(): the size read at line %s is still used after %s may have rotated the file: the check sees the size of the file that was just rotated away, rotates the fresh "
+              "empty file as well (an empty file is compressed into an invalid archive) or judges the limit by the wrong size" % (strip_tmpl(fn.name).split("::")[-1], rd.get("l"), describe(rc)[:40]),
+              key="rotateIfNeeded|stale-size")
+    else:
+        ck.ob(rid, sitestr(S.m["rotateIfNeeded"]), True, "every size of the active file is read after the last rotation that can precede its use (%d uses of held sizes)" % n_uses, key="rotateIfNeeded|stale-size")
